@@ -23,6 +23,12 @@ CHECKS = {
  "C06": ("exploration", "runtime monitor: model comparison of the hybrid index and of every sub-index searched directly after each op, plus metamorphic before==after batteries around every failing op; per-kind update clause on 7 index kinds",
          "Held on 300/6000 hybrid histories (failing adds in the 1st and 3rd sub-index, removals of unknown/removed ids, re-adds with flush before/between/after) and 210/4200 per-kind update histories.",
          "Reference = hybrid model of C05; before/after batteries use tie-free complete answers so map-order tie-breaking cannot raise an alarm.", "DESIGN.md §4 C06"),
+ "C07": ("exploration", "runtime monitor: differential source-vs-reloaded comparison of a fixed battery of complete answers over generated states of all 8 kinds, through three reader shapes with a trailing sentinel (exact consumption), byte-count checks, concatenated streams, identical continuation histories",
+         "Held (apart from a listed known finding) on 320/8000 states incl. empty, untrained, all-removed and numeric-field-emptied states; each state round-trips 3 readers + a concatenated pair + a continuation.",
+         "Differential oracle (the source's own correctness is C01-C06); node-id queries excluded for PQ/IVFPQ; HNSW kept in its exact regime.", "DESIGN.md §4 C07"),
+ "C16": ("fault_enumeration", "runtime fault enumeration: every strict prefix of each generated stream (all offsets up to 8 KiB, field boundaries +-1 and a sample beyond) read into a fresh receiver under recover + watchdog; full kind x kind and one-parameter-off mismatch matrix; version patch; every prefix of every component file of a damaged segment opened through the store",
+         "Enumerated ~190k prefixes over 96 streams (quick) of all 8 kinds, 672 cross-kind pairings, every one-parameter receiver variant, and the segment clause over every byte prefix of the 4 gzip files of a damaged segment next to an intact one.",
+         "Prefixes are cut from streams the implementation itself produced; exhaustive=true only when every offset of every stream of the run was tried.", "DESIGN.md §4 C16"),
  "C12": ("exploration", "runtime monitor: exact k-NN comparison inside the small-graph regime, non-emptiness after every op, BFS reachability invariant on the graph read through a verif accessor at quiescent points, adversarial removal targets chosen on the graph",
          "Held (apart from listed known findings) on 400/8000 exact-regime histories and 120/1500 graphs of up to 300/3000 vertices; each unreachable vertex is classified on the graph so that only the recorded shapes are suppressed.",
          "Reachability asserted only in states without pending soft deletes; the k=n, ef>=n corroboration is an observation, not a verdict (directed edges, upper-layer descent).", "DESIGN.md §4 C12"),
